@@ -330,15 +330,24 @@ func Schemas2020(thorough bool) *Set {
 			`{"items":` + x + `}`, `{"prefixItems":[` + x + `]}`, `{"contains":` + x + `}`,
 			`{"dependentSchemas":{"a":` + x + `}}`, `{"propertyNames":` + x + `}`,
 			`{"unevaluatedProperties":` + x + `}`, `{"unevaluatedItems":` + x + `}`,
-			`{"$defs":{"d":` + x + `},"$ref":"#/$defs/d"}`,
 		}
+	}
+	// the $defs/$ref wrapper only around reference-free schemas: nested twice, the inner
+	// "#/$defs/d" would name the outer wrapper itself (recursion without instance descent)
+	wrapRef := func(x string) []string {
+		if strings.Contains(x, `"$ref"`) {
+			return nil
+		}
+		return []string{`{"$defs":{"d":` + x + `},"$ref":"#/$defs/d"}`}
 	}
 	var d1, d2 []string
 	for _, l := range leaves {
 		d1 = append(d1, wrap(l)...)
+		d1 = append(d1, wrapRef(l)...)
 	}
 	for _, x := range d1 {
 		d2 = append(d2, wrap(x)...)
+		d2 = append(d2, wrapRef(x)...)
 	}
 	for _, x := range d2 {
 		s.Add("P4", x)
